@@ -2,7 +2,7 @@
 From Coq Require Import NArith List.
 Import ListNotations.
 Require Import Consts Nor Geom Store.
-Require MRecon Mgr MgrP.
+Require MRecon Mgr MgrP MgrSim Confine.
 Open Scope N_scope.
 
 (* parity blocks and matrix rows of the byte-level model: whatever index, block size, capacity or offset is passed,
@@ -50,7 +50,34 @@ Theorem c08_read_program_disjoint : forall m a len v b blen,
   b + blen <= a \/ a + len <= b -> read (program m a len v) b blen = read m b blen.
 Proof. exact read_program_disjoint. Qed.
 
+(* Run level, on the executable model: [Confine.in_pair m blk fw par e] says that the logged operation e (a program with its
+   address and length, or the erase of one block of size blk) lies inside slot fw or inside slot par.
+   (1) every handle_segment call - whatever it returns (Ok, error, panic), whatever fault is armed, for every index and
+   payload - adds to the device log only programs inside the session's two slots, for every session whose block count and
+   size fit the slot (the geometry start_update accepts); (2) so does every delivery; (3) a start_update that reports a
+   session has performed only erases and programs inside the two slots of that session. *)
+Theorem c08_handle_segment_confined : forall checked ffr m blk u idx1 payload plen d cnt,
+  cnt <= MAX_SEGMENTS -> cnt * MRecon.bs (Mgr.u_rd u) <= Mgr.m_size m - DATA_REGION_OFFSET -> DATA_REGION_OFFSET <= Mgr.m_size m ->
+  MRecon.n (Mgr.u_rd u) = N.to_nat cnt -> 1 <= cnt ->
+  let '(d', u', r) := Mgr.handle_segment checked ffr m u idx1 payload plen d in
+  (exists news, Mgr.dlog d' = news ++ Mgr.dlog d /\ Forall (Confine.in_pair m blk (Mgr.u_fw u) (Mgr.u_par u)) news) /\
+  Mgr.u_fw u' = Mgr.u_fw u /\ Mgr.u_par u' = Mgr.u_par u /\ MRecon.n (Mgr.u_rd u') = MRecon.n (Mgr.u_rd u) /\ MRecon.bs (Mgr.u_rd u') = MRecon.bs (Mgr.u_rd u).
+Proof. exact Confine.handle_segment_confined. Qed.
+Theorem c08_delivery_confined : forall checked ffr m blk cnt segs u d d' u' outs,
+  cnt <= MAX_SEGMENTS -> cnt * MRecon.bs (Mgr.u_rd u) <= Mgr.m_size m - DATA_REGION_OFFSET -> DATA_REGION_OFFSET <= Mgr.m_size m ->
+  MRecon.n (Mgr.u_rd u) = N.to_nat cnt -> 1 <= cnt ->
+  MgrSim.feed m checked ffr u d segs = Some (d', u', outs) ->
+  exists news, Mgr.dlog d' = news ++ Mgr.dlog d /\ Forall (Confine.in_pair m blk (Mgr.u_fw u) (Mgr.u_par u)) news.
+Proof. exact Confine.feed_confined. Qed.
+Theorem c08_start_update_confined : forall m sz cnt d d' u, 28 <= Mgr.m_size m ->
+  Mgr.start_update m sz cnt d = (d', Mgr.ROk u) ->
+  exists news, Mgr.dlog d' = news ++ Mgr.dlog d /\ Forall (Confine.in_pair m (Mgr.dblk d) (Mgr.u_fw u) (Mgr.u_par u)) news.
+Proof. exact Confine.start_update_confined. Qed.
+
 Print Assumptions c08_parity_puts_confined.
+Print Assumptions c08_handle_segment_confined.
+Print Assumptions c08_delivery_confined.
+Print Assumptions c08_start_update_confined.
 Print Assumptions c08_data_put_confined.
 Print Assumptions c08_mro_succ.
 Print Assumptions c08_rows_disjoint.
